@@ -252,10 +252,10 @@ func main() {
 					kind = "edge"
 				}
 			}
-			if sigOf(in) == "" { // known findings are replayed from the corpus only
-				break
-			}
-			out.Count("regenerated_known_shape", sigOf(in))
+			break
+		}
+		if sg := sigOf(in); sg != "" {
+			out.Count("shape_of_fixed_finding", sg) // fixed in /repo b0cce87: back in the main stream
 		}
 		in.NoExec = !g.exec
 		add(kind, in, twinOf(in, r.Fork()))
